@@ -330,7 +330,7 @@ type stageAReplay struct {
 	Ops   []Op   `json:"ops"`
 }
 
-var opAlphabet = []Op{"start:0", "start:1", "start:2", "start:3", "resume", "restore", "inspect:0", "inspect:3", "eval", "find:child"}
+var opAlphabet = []Op{"start:0", "start:1", "start:2", "start:3", "resume", "restore", "inspect:0", "inspect:3", "eval", "find:child", "chlang:1"}
 
 func stageA(c *mc.Ctx, doc []byte, maxLen int) {
 	c.Fact("stageA_ran")
@@ -661,7 +661,7 @@ func flowsUsed(names []string) int {
 				used["0"], used["1"] = true, true
 			case strings.HasPrefix(s, "start:"), strings.HasPrefix(s, "inspect:"):
 				used[s[strings.Index(s, ":")+1:]] = true
-			case s == "find:child":
+			case s == "find:child", s == "chlang:1":
 				used["1"] = true
 			}
 		}
